@@ -62,58 +62,68 @@ theorem disjointZ_members (fuel : Nat) (gs : List (GroupZ K)) (Q : ZFld K → Pr
 
 /-! ### `mergeZ` -/
 
-theorem mergeShape_none_iff (b : Extent) :
-    Gen.mergeShape b.rmin b.rmax b.cmin b.cmax = none ↔ b = ⟨0, 0, 0, 0⟩ := by
+theorem mergeShape_none_iff (b : Extent) (a : Int) :
+    Gen.mergeShape b.rmin b.rmax b.cmin b.cmax a = none ↔ (b = ⟨0, 0, 0, 0⟩ ∧ a ≠ 0) := by
   cases b
   unfold Gen.mergeShape
   simp only []
-  split_ifs with h <;> simp_all
+  split_ifs with h h2 <;> simp_all
 
-theorem mergeL_isSome_iff [Add K] [Zero K] (fs : List (Fld K)) :
-    (mergeL fs).isSome = true ↔ boundaryL (fs.map Fld.extent) ≠ ⟨0, 0, 0, 0⟩ := by
-  unfold mergeL
-  simp only []
-  cases hc : Gen.mergeShape _ _ _ _ with
-  | none => simp [(mergeShape_none_iff _).mp hc]
-  | some shp =>
-    simp only [Option.isSome_some, true_iff]
-    intro hh; rw [(mergeShape_none_iff _).mpr hh] at hc; cases hc
+theorem b2i_ne_zero (x : Bool) : b2i x ≠ 0 ↔ x = true := by cases x <;> simp [b2i]
 
-/-- where `_merge` on plain arrays answers, the 0-d aware `_merge` gives the same field -/
+/-- where the collection is not an all-0-d collection on the origin pixel, the 0-d aware `_merge` is `_merge` on arrays -/
 theorem mergeZ_of_mergeL [Add K] [Zero K] (zs : List (ZFld K)) (p : Fld K)
+    (hz : (zs.all fun z => z.zd) = false ∨ boundaryL (zs.map fun z => z.fld.extent) ≠ ⟨0, 0, 0, 0⟩)
     (h : mergeL (zs.map fun z => z.fld) = some p) : mergeZ zs = some { fld := p, zd := false } := by
-  have hs := (mergeL_isSome_iff (zs.map fun z => z.fld)).mp (by rw [h]; rfl)
-  rw [List.map_map] at hs
-  have hn : Gen.mergeShape (boundaryL (zs.map fun z => z.fld.extent)).rmin (boundaryL (zs.map fun z => z.fld.extent)).rmax
-      (boundaryL (zs.map fun z => z.fld.extent)).cmin (boundaryL (zs.map fun z => z.fld.extent)).cmax ≠ none :=
-    fun hh => hs ((mergeShape_none_iff _).mp hh)
   unfold mergeZ
   simp only []
-  cases hc : Gen.mergeShape _ _ _ _ with
-  | none => exact absurd hc hn
+  cases hc : Gen.mergeShape _ _ _ _ _ with
+  | none =>
+    obtain ⟨hb, ha⟩ := (mergeShape_none_iff _ _).mp hc
+    rw [b2i_ne_zero] at ha
+    rcases hz with hz | hz
+    · rw [hz] at ha; cases ha
+    · exact absurd hb hz
   | some shp => simp only [h, Option.map_some]
 
-/-- the 0-d aware `_merge` is defined unless the box is the origin pixel and some member is a (1, 1) array -/
-theorem mergeZ_isSome_iff [Add K] [Zero K] (zs : List (ZFld K)) :
-    (mergeZ zs).isSome = true ↔
-      (boundaryL (zs.map fun z => z.fld.extent) ≠ ⟨0, 0, 0, 0⟩ ∨ zs.all (fun z => z.zd) = true) := by
+/-- the 0-d aware `_merge` always answers (since the /repo fix of `_merge_shape`) -/
+theorem mergeZ_isSome [Add K] [Zero K] (zs : List (ZFld K)) : (mergeZ zs).isSome = true := by
   unfold mergeZ
   simp only []
-  cases hc : Gen.mergeShape _ _ _ _ with
-  | none =>
-    have hb := (mergeShape_none_iff _).mp hc
-    by_cases ha : zs.all (fun z => z.zd) = true
-    · simp [ha]
-    · simp only [ha, Bool.false_eq_true, if_false, Option.isSome_none, false_iff, not_or, not_not]
-      exact ⟨hb, by simp⟩
+  cases hc : Gen.mergeShape _ _ _ _ _ with
+  | none => rfl
   | some shp =>
-    have hb : boundaryL (zs.map fun z => z.fld.extent) ≠ ⟨0, 0, 0, 0⟩ := by
-      intro hh; rw [(mergeShape_none_iff _).mpr hh] at hc; cases hc
-    have hm : (mergeL (zs.map fun z => z.fld)).isSome = true := by
-      rw [mergeL_isSome_iff, List.map_map]; exact hb
+    have hm := mergeL_isSome (zs.map fun z => z.fld)
     cases hl : mergeL (zs.map fun z => z.fld) with
     | none => rw [hl] at hm; cases hm
-    | some p => simp [hb]
+    | some p => rfl
+
+/-- the result of the 0-d aware `_merge` is 0-d exactly for an all-0-d collection on the origin pixel -/
+theorem mergeZ_zd [Add K] [Zero K] (zs : List (ZFld K)) (p : ZFld K) (h : mergeZ zs = some p) :
+    p.zd = true ↔ (boundaryL (zs.map fun z => z.fld.extent) = ⟨0, 0, 0, 0⟩ ∧ (zs.all fun z => z.zd) = true) := by
+  unfold mergeZ at h
+  simp only [] at h
+  cases hc : Gen.mergeShape (boundaryL (zs.map fun z => z.fld.extent)).rmin (boundaryL (zs.map fun z => z.fld.extent)).rmax
+      (boundaryL (zs.map fun z => z.fld.extent)).cmin (boundaryL (zs.map fun z => z.fld.extent)).cmax
+      (b2i (zs.all fun z => z.zd)) with
+  | none =>
+    obtain ⟨hb, ha⟩ := (mergeShape_none_iff _ _).mp hc
+    rw [b2i_ne_zero] at ha
+    simp only [hc, Option.some.injEq] at h
+    subst h
+    simp [hb, ha]
+  | some shp =>
+    simp only [hc] at h
+    cases hl : mergeL (zs.map fun z => z.fld) with
+    | none => simp [hl] at h
+    | some q =>
+      simp only [hl, Option.map_some, Option.some.injEq] at h
+      subst h
+      simp only [Bool.false_eq_true, false_iff]
+      rintro ⟨hb, ha⟩
+      have := (mergeShape_none_iff (boundaryL (zs.map fun z => z.fld.extent)) (b2i (zs.all fun z => z.zd))).mpr
+        ⟨hb, (b2i_ne_zero _).mpr ha⟩
+      rw [this] at hc; cases hc
 
 /-- **the 0-d aware merge occupies the `boundary` box and embeds as the sum of its members** — including the
 origin-pixel corner with 0-d members -/
@@ -128,7 +138,8 @@ theorem mergeZ_spec [AddZeroClass K] (zs : List (ZFld K)) (hne : zs ≠ [])
   unfold mergeZ at h
   simp only [] at h
   cases hc : Gen.mergeShape (boundaryL (zs.map fun z => z.fld.extent)).rmin (boundaryL (zs.map fun z => z.fld.extent)).rmax
-      (boundaryL (zs.map fun z => z.fld.extent)).cmin (boundaryL (zs.map fun z => z.fld.extent)).cmax with
+      (boundaryL (zs.map fun z => z.fld.extent)).cmin (boundaryL (zs.map fun z => z.fld.extent)).cmax
+      (b2i (zs.all fun z => z.zd)) with
   | some shp =>
     simp only [hc] at h
     cases hl : mergeL (zs.map fun z => z.fld) with
@@ -140,10 +151,8 @@ theorem mergeZ_spec [AddZeroClass K] (zs : List (ZFld K)) (hne : zs ≠ [])
       rw [mergeL_emb _ hne' hpos' q hl r c]
       simp only [sumList, List.foldl_map]
   | none =>
-    have hb := (mergeShape_none_iff _).mp hc
-    simp only [hc] at h
-    split_ifs at h with ha
-    simp only [Option.some.injEq] at h
+    have hb := ((mergeShape_none_iff _ _).mp hc).1
+    simp only [hc, Option.some.injEq] at h
     subst h
     rw [hb]
     have he : arrayExtent 1 1 (Gen.mergeOffset (0:Int) 0 0 0).1 (Gen.mergeOffset (0:Int) 0 0 0).2 = ⟨0, 0, 0, 0⟩ := by decide
@@ -261,31 +270,26 @@ theorem map_outZ_spec [AddMonoid K] (gs : List (GroupZ K)) (out : List (ZFld K))
       refine ⟨by simp only [List.map_cons, e1, i1], fun r c => ?_⟩
       simp only [List.map_cons, e2 r c, i2 r c]
 
-/-- a group of 0-d fields always has an output -/
-theorem GroupZ.out_isSome_of_all_zd [Add K] [Zero K] (g : GroupZ K) (h : ∀ z ∈ g.fields, z.zd = true) :
-    g.out.isSome = true := by
+/-- every group has an output (since the /repo fix of `_merge_shape`) -/
+theorem GroupZ.out_isSome [Add K] [Zero K] (g : GroupZ K) : g.out.isSome = true := by
   obtain ⟨fields, extent⟩ := g
   cases fields with
-  | nil =>
-    simp only [GroupZ.out_eq, GroupZ.outSpec]
-    rw [mergeZ_isSome_iff]; right; rfl
+  | nil => simp only [GroupZ.out_eq, GroupZ.outSpec]; exact mergeZ_isSome _
   | cons a t =>
     cases t with
     | nil => simp [GroupZ.out_eq, GroupZ.outSpec]
-    | cons b t =>
-      simp only [GroupZ.out_eq, GroupZ.outSpec]
-      rw [mergeZ_isSome_iff]; right
-      rw [List.all_eq_true]; exact h
+    | cons b t => simp only [GroupZ.out_eq, GroupZ.outSpec]; exact mergeZ_isSome _
 
-/-- where the plain-array group output answers, the 0-d aware one gives the same field -/
-theorem GroupZ.out_of_out [Add K] [Zero K] (g : GroupZ K) (p : Fld K) (h : g.toG.out = some p) :
-    (g.out.map fun z => z.fld) = some p := by
+/-- for a group without 0-d members the 0-d aware output is the plain-array output -/
+theorem GroupZ.out_of_out [Add K] [Zero K] (g : GroupZ K) (hz : ∀ z ∈ g.fields, z.zd = false) (p : Fld K)
+    (h : g.toG.out = some p) : (g.out.map fun z => z.fld) = some p := by
   obtain ⟨fields, extent⟩ := g
   cases fields with
   | nil =>
     simp only [GroupZ.toG, List.map_nil, Group.out] at h
     simp only [GroupZ.out_eq, GroupZ.outSpec]
-    rw [mergeZ_of_mergeL [] p h]; rfl
+    have hb : boundaryL ([] : List Extent) ≠ ⟨0, 0, 0, 0⟩ := by decide
+    rw [mergeZ_of_mergeL [] p (Or.inr hb) h]; rfl
   | cons a t =>
     cases t with
     | nil =>
@@ -294,10 +298,12 @@ theorem GroupZ.out_of_out [Add K] [Zero K] (g : GroupZ K) (p : Fld K) (h : g.toG
     | cons b t =>
       simp only [GroupZ.toG, List.map_cons, Group.out] at h
       simp only [GroupZ.out_eq, GroupZ.outSpec]
-      rw [mergeZ_of_mergeL (a :: b :: t) p (by simpa using h)]; rfl
+      have ha : ((a :: b :: t).all fun z => z.zd) = false := by
+        simp only [List.all_cons, hz a (List.mem_cons_self ..), Bool.false_and]
+      rw [mergeZ_of_mergeL (a :: b :: t) p (Or.inl ha) (by simpa using h)]; rfl
 
-theorem map_out_of_out [Add K] [Zero K] (gs : List (GroupZ K)) (out : List (Fld K))
-    (h : gs.map (fun g => g.toG.out) = out.map some) :
+theorem map_out_of_out [Add K] [Zero K] (gs : List (GroupZ K)) (hz : ∀ g ∈ gs, ∀ z ∈ g.fields, z.zd = false)
+    (out : List (Fld K)) (h : gs.map (fun g => g.toG.out) = out.map some) :
     gs.map (fun g => g.out.map fun z => z.fld) = out.map some := by
   induction gs generalizing out with
   | nil =>
@@ -309,7 +315,8 @@ theorem map_out_of_out [Add K] [Zero K] (gs : List (GroupZ K)) (out : List (Fld 
     | nil => simp at h
     | cons p ps =>
       simp only [List.map_cons, List.cons.injEq] at h ⊢
-      exact ⟨GroupZ.out_of_out g p h.1, ih ps h.2⟩
+      exact ⟨GroupZ.out_of_out g (hz g (List.mem_cons_self ..)) p h.1,
+        ih (fun g' hg' => hz g' (List.mem_cons_of_mem _ hg')) ps h.2⟩
 
 /-- the final groups of `reduceZ`, with the flags forgotten, are the final groups of `reduce` -/
 theorem reduceZ_groups_toG (zs : List (ZFld K)) :
@@ -328,29 +335,31 @@ theorem reduceZ_groups_wf (zs : List (ZFld K)) (hpos : ∀ z ∈ zs, 0 < z.fld.a
   obtain ⟨z, hz, rfl⟩ := List.mem_map.mp hf
   exact Group.single_wf _ (hpos z hz)
 
-/-! ### totality of `reduce` / `reduceZ` from input-level conditions -/
+/-! ### totality of `reduce` / `reduceZ` (unconditional since the /repo fix of `_merge_shape`) -/
 
-/-- indicator of "occupies exactly the origin pixel" -/
-def originW (f : Fld K) : Nat := if f.extent = ⟨0, 0, 0, 0⟩ then 1 else 0
+/-- every group has an output field -/
+theorem Group.out_isSome [Add K] [Zero K] (g : Group K) : g.out.isSome = true := by
+  obtain ⟨fields, extent⟩ := g
+  cases fields with
+  | nil => simp only [Group.out]; exact mergeL_isSome _
+  | cons a t =>
+    cases t with
+    | nil => rfl
+    | cons b t => simp only [Group.out]; exact mergeL_isSome _
 
-theorem sum_originW (fs : List (Fld K)) :
-    (fs.map originW).sum = (fs.filter fun f => decide (f.extent = ⟨0, 0, 0, 0⟩)).length := by
-  induction fs with
-  | nil => rfl
-  | cons f fs ih =>
-    by_cases h : f.extent = ⟨0, 0, 0, 0⟩
-    · simp only [List.map_cons, List.sum_cons, originW, h, if_true, List.filter_cons, decide_true, List.length_cons]
-      omega
-    · simp only [List.map_cons, List.sum_cons, originW, h, if_false, List.filter_cons, decide_false, Bool.false_eq_true]
-      omega
+/-- **totality of `reduce`**: every element of `reduce fs` is a field, for every collection of array fields -/
+theorem reduce_isSome [Add K] [Zero K] (fs : List (Fld K)) : ∀ o ∈ reduce fs, o.isSome = true := by
+  intro o ho
+  rw [reduce_eq] at ho
+  obtain ⟨g, _, rfl⟩ := List.mem_map.mp ho
+  exact Group.out_isSome g
 
-theorem nat_le_sum_of_mem (l : List Nat) (x : Nat) (h : x ∈ l) : x ≤ l.sum := by
-  induction l with
-  | nil => cases h
-  | cons y ys ih =>
-    rcases List.mem_cons.mp h with h1 | h1
-    · subst h1; simp
-    · have := ih h1; simp only [List.sum_cons]; omega
+/-- **totality of the 0-d aware `reduce`** -/
+theorem reduceZ_isSome [Add K] [Zero K] (zs : List (ZFld K)) : ∀ o ∈ reduceZ zs, o.isSome = true := by
+  intro o ho
+  rw [reduceZ_eq] at ho
+  obtain ⟨g, _, rfl⟩ := List.mem_map.mp ho
+  exact GroupZ.out_isSome g
 
 /-- positive-shape members of a collection whose `boundary` box is the origin pixel all occupy exactly the origin pixel -/
 theorem members_origin_of_box_origin (fs : List (Fld K)) (hpos : ∀ f ∈ fs, 0 < f.arr.s0 ∧ 0 < f.arr.s1)
@@ -362,47 +371,6 @@ theorem members_origin_of_box_origin (fs : List (Fld K)) (hpos : ∀ f ∈ fs, 0
   cases he : f.extent with
   | mk a b c d => rw [he] at h1 h2; simp only at h1 h2; simp only [Extent.mk.injEq]; omega
 
-/-- a well-formed group with at most one member on the origin pixel always has an output field -/
-theorem Group.out_isSome_of_origin_le_one [Add K] [Zero K] (g : Group K) (hg : g.wf)
-    (h : Group.weight originW g ≤ 1) : g.out.isSome = true := by
-  obtain ⟨fields, extent⟩ := g
-  rcases hg.ext with ⟨f, hf, _⟩ | ⟨hl, _⟩
-  · simp only at hf; subst hf; rfl
-  · simp only at hl
-    have hm : Group.out (K := K) ⟨fields, extent⟩ = mergeL fields := by
-      cases fields with
-      | nil => simp at hl
-      | cons a t =>
-        cases t with
-        | nil => simp at hl
-        | cons b t => simp only [Group.out]
-    rw [hm, mergeL_isSome_iff]
-    intro hb
-    have hall := members_origin_of_box_origin fields hg.pos hb
-    have : Group.weight originW (⟨fields, extent⟩ : Group K) = fields.length := by
-      simp only [Group.weight]
-      rw [sum_originW, List.filter_eq_self.mpr]
-      intro f hf; simp [hall f hf]
-    omega
-
-/-- **totality of `reduce`**: positive shapes and at most one input field occupying exactly the origin pixel -/
-theorem reduce_isSome_of_origin_le_one [Add K] [Zero K] (fs : List (Fld K))
-    (hpos : ∀ f ∈ fs, 0 < f.arr.s0 ∧ 0 < f.arr.s1)
-    (h1 : (fs.filter fun f => decide (f.extent = ⟨0, 0, 0, 0⟩)).length ≤ 1) : ∀ o ∈ reduce fs, o.isSome = true := by
-  intro o ho
-  rw [reduce_eq] at ho
-  obtain ⟨g, hg, rfl⟩ := List.mem_map.mp ho
-  have hwf : g.wf := by
-    refine disjoint_wf _ _ ?_ g hg
-    intro g' hg'
-    obtain ⟨f, hf, rfl⟩ := List.mem_map.mp hg'
-    exact Group.single_wf f (hpos f hf)
-  apply Group.out_isSome_of_origin_le_one g hwf
-  have htot := (disjoint_total (originW (K := K)) fs.length (fs.map Group.single)).trans (single_total originW fs)
-  rw [sum_originW] at htot
-  have := nat_le_sum_of_mem _ _ (List.mem_map_of_mem (f := Group.weight originW) hg)
-  omega
-
 /-- a field of more than one element never occupies exactly the origin pixel -/
 theorem extent_ne_origin_of_not_size1 (f : Fld K) (hpos : 0 < f.arr.s0 ∧ 0 < f.arr.s1) (h : f.size1 = false) :
     f.extent ≠ ⟨0, 0, 0, 0⟩ := by
@@ -411,55 +379,6 @@ theorem extent_ne_origin_of_not_size1 (f : Fld K) (hpos : 0 < f.arr.s0 ∧ 0 < f
   have : f.size1 = true := by
     simp only [Fld.size1, Bool.and_eq_true, decide_eq_true_eq]; omega
   rw [h] at this; cases this
-
-/-- 0-d aware version: at most one input on the origin pixel, **or** every input on the origin pixel is 0-d -/
-theorem reduceZ_isSome_of_inputs [Add K] [Zero K] (zs : List (ZFld K))
-    (hpos : ∀ z ∈ zs, 0 < z.fld.arr.s0 ∧ 0 < z.fld.arr.s1)
-    (h : ((zs.map fun z => z.fld).filter fun f => decide (f.extent = ⟨0, 0, 0, 0⟩)).length ≤ 1 ∨
-         ∀ z ∈ zs, z.fld.extent = ⟨0, 0, 0, 0⟩ → z.zd = true) : ∀ o ∈ reduceZ zs, o.isSome = true := by
-  intro o ho
-  rw [reduceZ_eq] at ho
-  obtain ⟨g, hg, rfl⟩ := List.mem_map.mp ho
-  have hwf := reduceZ_groups_wf zs hpos g hg
-  rcases h with h | h
-  · -- the plain-array output answers, hence so does the 0-d aware one
-    have hmem : g.toG ∈ (disjointZ zs.length (zs.map GroupZ.single)).map GroupZ.toG := List.mem_map_of_mem hg
-    rw [reduceZ_groups_toG] at hmem
-    have hpos' : ∀ f ∈ (zs.map fun z => z.fld), 0 < f.arr.s0 ∧ 0 < f.arr.s1 := by
-      intro f hf; obtain ⟨z, hz, rfl⟩ := List.mem_map.mp hf; exact hpos z hz
-    have hs := reduce_isSome_of_origin_le_one _ hpos' h (g.toG.out) (by rw [reduce_eq]; exact List.mem_map_of_mem hmem)
-    cases hq : g.toG.out with
-    | none => rw [hq] at hs; cases hs
-    | some p =>
-      have := GroupZ.out_of_out g p hq
-      cases hz : g.out with
-      | none => rw [hz] at this; cases this
-      | some _ => rfl
-  · have hin : ∀ z ∈ g.fields, z ∈ zs := by
-      refine disjointZ_members zs.length (zs.map GroupZ.single) (fun z => z ∈ zs) ?_ g hg
-      intro g' hg' z hz'
-      obtain ⟨z0, hz0, rfl⟩ := List.mem_map.mp hg'
-      simp only [GroupZ.single, List.mem_singleton] at hz'
-      subst hz'; exact hz0
-    obtain ⟨fields, extent⟩ := g
-    cases fields with
-    | nil => simp only [GroupZ.out_eq, GroupZ.outSpec]; rw [mergeZ_isSome_iff]; right; rfl
-    | cons a t =>
-      cases t with
-      | nil => simp [GroupZ.out_eq, GroupZ.outSpec]
-      | cons b t =>
-        simp only [GroupZ.out_eq, GroupZ.outSpec]
-        rw [mergeZ_isSome_iff]
-        by_cases hb : boundaryL ((a :: b :: t).map fun z => z.fld.extent) = ⟨0, 0, 0, 0⟩
-        · right
-          rw [List.all_eq_true]
-          intro z hz
-          have hmm : ((a :: b :: t).map fun z => z.fld.extent) = ((a :: b :: t).map fun z => z.fld).map Fld.extent := by
-            rw [List.map_map]; rfl
-          have hall := members_origin_of_box_origin ((a :: b :: t).map fun z => z.fld)
-            (fun f hf => by obtain ⟨z', hz', rfl⟩ := List.mem_map.mp hf; exact hpos z' (hin z' hz')) (by rw [← hmm]; exact hb)
-          exact h z (hin z hz) (hall z.fld (List.mem_map_of_mem hz))
-        · left; exact hb
 
 /-! ### closed forms of the public `merge` / `overlap` models under the current generated tests (not property theorems) -/
 
